@@ -1,14 +1,265 @@
 /-
-  C08 — documented source-level equivalences preserve meaning (property theorems only).
+  C08 — documented source-level equivalences preserve meaning.
+
+  Property theorems only (definitions and lemmas: Arrai/C08/{Model,Lemmas,Rewrite}.lean).
+
+  Layer 1 (proved here).  `SameResult r₁ r₂` = "if both evaluations return (neither ran out of its
+  closure-call budget) they return the same thing": equal data values, related closures (bodies and
+  captured scopes related by the same rewrites), both an error, or both outside the model.
+  `rewrite_inert` is the master statement: two programs related by `AR` — the congruence closure of the
+  documented rewrites, so the rewrites may be applied at any positions, any number of them at once —
+  have the same result, for every pair of budgets.  The named theorems are the single rewrites.
+  Theorems are stated for `Spec.run` (the compiler that never fails at compile time) and transferred to
+  `Impl.run` (today's compiler) under the decidable hypothesis that compile-time folding of literal
+  collections did not fail (`Impl.compile a = Spec.compile a`); `fold_inert_full_false` shows that the
+  hypothesis cannot be dropped (known finding KF-fold-unselected).
+
+  Layer 2 (facts, not proof of the parser): `precLevels_regenerated`.
 -/
-import Arrai.C08.Model
+import Arrai.C08.Rewrite
+import Arrai.C08.Sugar
 import Arrai.C08.Expected
 import Arrai.Facts.Generated
 
 namespace Arrai.C08.Theorems
-open Arrai.C08
+open Arrai.C08 Arrai.C08.Impl
 
-/-- layer 2 obligation: the precedence tower regenerated from syntax/arrai.wbnf is the documented one -/
+/-- both evaluations returned ⇒ same value / both failed (`oof` on either side relates to everything) -/
+abbrev SameResult (r₁ r₂ : Res Val) : Prop := ResR ValR r₁ r₂
+
+/-- `SameResult` is what the harness observes: equal canonical text whenever both sides return -/
+theorem sameResult_observable {r₁ r₂ : Res Val} (h : SameResult r₁ r₂) (h₁ : r₁ ≠ .oof) (h₂ : r₂ ≠ .oof) :
+    r₁.obs = r₂.obs := obs_eq_of_rel h h₁ h₂
+
+/-- data results are literally equal -/
+theorem sameResult_data {v : V} {r : Res Val} (h : SameResult (.ok (.data v)) r) (hr : r ≠ .oof) :
+    r = .ok (.data v) := by
+  cases r <;> simp_all [SameResult]
+  exact h.data_left
+
+/-! ### the master theorem -/
+
+/-- rewriting a program by the documented equivalences, at any positions, never changes its value or
+whether it fails -/
+theorem rewrite_inert {a a' : Ast} (h : AR .expr [] a a') (n m : Nat) :
+    SameResult (Spec.run n a) (Spec.run m a') :=
+  sim_closed (compile_rel h true) n m
+
+/-- … and the same in any pair of related environments, for the unfolded or the folded left program -/
+theorem rewrite_inert_env {σ : Sub} {a a' : Ast} (h : AR .expr σ a a') (fo : Bool) (n m : Nat)
+    {envL envR : Env} (henv : EnvR σ envL envR) :
+    SameResult (eval n (compileG fo false a) envL) (eval m (compileG true false a') envR) :=
+  sim n (compile_rel h fo) m envL envR henv
+
+/-- every program is related to itself (so `AR` contains every context around a rewrite) -/
+theorem rewrite_refl (a : Ast) : AR .expr [] a a := (AR.refl a).1
+
+/-! ### let / arrow / call -/
+
+/-- `let p = e; b` and `e -> \p b` compile to the same expression -/
+theorem let_is_arrow (fo po : Bool) (p : Pat) (e b : Ast) :
+    compileG fo po (.let_ p e b) = compileG fo po (.opFn .arrow e p b) := rfl
+
+/-- `let p = e; b`  =  `e -> \p b`  =  `(\p b)(e)` -/
+theorem let_arrow_call (p : Pat) (e b : Ast) (n m : Nat) :
+    SameResult (Spec.run n (.let_ p e b)) (Spec.run m (.opFn .arrow e p b)) ∧
+    SameResult (Spec.run n (.call (.fn p b) e)) (Spec.run m (.opFn .arrow e p b)) ∧
+    SameResult (Spec.run n (.let_ p e b)) (Spec.run m (.call (.fn p b) e)) :=
+  ⟨rewrite_inert (AR.letL (rewrite_refl _)) n m,
+   rewrite_inert (AR.callArrow (rewrite_refl e) (by rw [Sub.erase_nil]; exact rewrite_refl b)) n m,
+   rewrite_inert (AR.letL (AR.arrowCall (rewrite_refl e) (by rw [Sub.erase_nil]; exact rewrite_refl b))) n m⟩
+
+/-! ### sugared literals and constructors = their spelled-out sets of tuples -/
+
+/-- `[e₀, e₁, …]` = `{(@: 0, @item: e₀), (@: 1, @item: e₁), …}` for arbitrary element expressions
+(same value, same failure) -/
+theorem sugar_desugar_array (c : Caller) (env : Env) (es : List Expr) :
+    evalE c (.coll .arr (elems es)) env = evalE c (.coll .set (spelled "@item" (indexed es 0))) env :=
+  sugar_array_eval c env es
+
+/-- `{k₀: v₀, …}` = `{(@: k₀, @value: v₀), …}` whenever the dict can be built (no repeated key) -/
+theorem sugar_desugar_dict (c : Caller) (env : Env) (kvs : List (Expr × Expr))
+    (hk : ∀ kv ∈ kvs, isNil kv.1 = false) (r : Val)
+    (hr : evalE c (.coll .dict (entriesE kvs)) env = .ok r) :
+    evalE c (.coll .set (spelled "@value" kvs)) env = .ok r :=
+  sugar_dict_eval c env kvs hk r hr
+
+/-- a string literal = its spelled-out set of `(@: i, @char: c)` tuples = `Lit.den` of the literal -/
+theorem sugar_desugar_string (c : Caller) (env : Env) (cs : List Nat) :
+    evalE c (.coll .set (spelled "@char" (indexed (cs.map fun ch => .lit (.num (Int.ofNat ch))) 0))) env =
+      evalE c (compile (.str cs)) env ∧
+    evalE c (compile (.str cs)) env = .ok (.data (Lit.den (.str 0 cs))) := by
+  refine ⟨?_, rfl⟩
+  rw [sugar_string_eval]; rfl
+
+/-- `true` = `{()}` and `false` = `{}` (the compiler produces the same literal) -/
+theorem sugar_desugar_bool :
+    compile .tt = compile (.coll .set (.cons "" .nil (.coll .tup .nil) .nil)) ∧
+    compile .ff = compile (.coll .set .nil) ∧
+    compile .tt = .lit (Lit.den .tt) ∧ compile .ff = .lit (Lit.den .ff) := by decide
+
+/-! ### the default binder -/
+
+/-- `lhs op f` (f not a function literal) is `lhs op \. f` -/
+theorem default_binder (op : ArrOp) (l f : Ast) (hf : isFnA f = false) (n m : Nat) :
+    compile (.opDot op l f) = compile (.opFn op l (.ident ".") f) ∧
+    SameResult (Spec.run n (.opDot op l f)) (Spec.run m (.opFn op l (.ident ".") f)) :=
+  ⟨compile_opDot_dot hf, rewrite_inert (AR.dotL hf (rewrite_refl _)) n m⟩
+
+/-! ### parentheses -/
+
+/-- redundant parentheses are inert -/
+theorem paren_inert (a : Ast) (n m : Nat) : SameResult (Spec.run n (.paren a)) (Spec.run m a) :=
+  rewrite_inert (AR.parenL (rewrite_refl a)) n m
+
+/-- … also around a function literal that is the right operand of `->`, `=>`, `>>`, `where`, `orderby`
+(the repaired `ExprAsFunction`) -/
+theorem paren_fn_operand (op : ArrOp) (l : Ast) (p : Pat) (b : Ast) (n m : Nat) :
+    SameResult (Spec.run n (.opDot op l (.paren (.fn p b)))) (Spec.run m (.opFn op l p b)) :=
+  rewrite_inert (AR.dotFnL (f := .paren (.fn p b)) rfl (rewrite_refl _)) n m
+
+/-! ### constant folding -/
+
+/-- folding literal collections while compiling changes neither the value nor the error behaviour — for
+the compiler that keeps the unfolded expression when folding fails -/
+theorem fold_inert (a : Ast) (n m : Nat) :
+    SameResult (eval n (compileG false false a) []) (Spec.run m a) :=
+  sim_closed (compile_rel (rewrite_refl a) false) n m
+
+/-- the compiler without compile-time failure never produces a compile-time failure -/
+theorem spec_unpoisoned (fo : Bool) (a : Ast) : poisoned (compileG fo false a) = false := by
+  induction a with
+  | coll k items ih =>
+    cases fo with
+    | false => rw [compileG_coll_false]; simpa [poisoned] using ih
+    | true =>
+      rw [compileG_coll_true]
+      rcases foldColl_false_cases k (compileG true false items) with ⟨es, v, _, _, h⟩ | h <;> rw [h]
+      · rfl
+      · simpa [poisoned] using ih
+  | opDot op l f ihl ihf => simp [compileG, poisoned, ihl, poisoned_asFunction, ihf]
+  | _ => simp_all [compileG, poisoned]
+
+/-- the hypothesis of the partial theorems is exactly the class predicate the generator uses: today's
+compiler agrees with the never-failing compiler iff it raises no compile-time failure -/
+theorem compile_agree_iff (a : Ast) : Impl.compile a = Spec.compile a ↔ poisoned (Impl.compile a) = false :=
+  ⟨fun h => by rw [h]; exact spec_unpoisoned true a, compile_eq_of_unpoisoned a⟩
+
+/-- today's compiler agrees with the specification wherever its compile-time folding does not fail -/
+theorem impl_run_eq_spec {a : Ast} (h : Impl.compile a = Spec.compile a) (n : Nat) :
+    Impl.run n a = Spec.run n a := by
+  unfold Impl.run Spec.run
+  rw [h]
+  simp [Spec.compile, spec_unpoisoned]
+
+/-- `fold_inert` for today's compiler, where its compile-time folding does not fail -/
+theorem fold_inert_partial (a : Ast) (h : Impl.compile a = Spec.compile a) (n m : Nat) :
+    SameResult (eval n (compileG false false a) []) (Impl.run m a) := by
+  rw [impl_run_eq_spec h]; exact fold_inert a n m
+
+/-- the same transfer for every rewrite -/
+theorem rewrite_inert_partial {a a' : Ast} (h : AR .expr [] a a')
+    (ha : Impl.compile a = Spec.compile a) (ha' : Impl.compile a' = Spec.compile a') (n m : Nat) :
+    SameResult (Impl.run n a) (Impl.run m a') := by
+  rw [impl_run_eq_spec ha, impl_run_eq_spec ha']; exact rewrite_inert h n m
+
+/-- full-strength statement for today's compiler -/
+def fold_inert_full : Prop :=
+  ∀ (a : Ast) (n m : Nat), SameResult (eval n (compileG false false a) []) (Impl.run m a)
+
+/-- `cond {false: {1: 2, 1: 3}, _: 0}`: unfolded it is `0`; today's compiler fails on it (KF-fold-unselected) -/
+def foldWitness : Ast :=
+  .cond (.cons "" .ff (.coll .dict (.cons "" (.num 1) (.num 2) (.cons "" (.num 1) (.num 3) .nil)))
+    (.cons "" (.ident "_") (.num 0) .nil))
+
+theorem fold_inert_full_false : ¬ fold_inert_full := by
+  intro h
+  have := h foldWitness 0 0
+  have h1 : eval 0 (compileG false false foldWitness) [] = .ok (.data (.num 0)) := rfl
+  have h2 : Impl.run 0 foldWitness = .err := rfl
+  rw [h1, h2] at this
+  simp [SameResult] at this
+
+/-- the hypothesis of the partial theorems is satisfiable by a non-trivial program -/
+example : Impl.compile (.coll .dict (.cons "" (.num 1) (.num 2) (.cons "" (.num 2) (.num 3) .nil)))
+    = Spec.compile (.coll .dict (.cons "" (.num 1) (.num 2) (.cons "" (.num 2) (.num 3) .nil))) := by decide
+
+/-! ### substitution -/
+
+/-- replacing a let-bound name by its (atomic literal) value, capture-avoiding, is inert -/
+theorem subst_inert (x : String) (lv : Ast) (v : V) (b : Ast) (hl : leafLit lv = some v) (hx : x ≠ "_")
+    (hb : isUnderscoreA (substA x lv b) = false) (n m : Nat) :
+    SameResult (Spec.run n (.let_ (.ident x) lv b)) (Spec.run m (substA x lv b)) :=
+  rewrite_inert (AR.letSubst hl hx hb (by rw [Sub.erase_nil]; exact (substA_rel x hl hx b).1)) n m
+
+/-! ### cond / && / || evaluate only the branches they select -/
+
+/-- `a && b` with `a` false: `b` is not evaluated -/
+theorem and_short_circuit (c : Caller) (a b b' : Expr) (env : Env) (va : Val)
+    (ha : evalE c a env = .ok va) (hf : isTrue va = false) :
+    evalE c (.and_ a b) env = .ok va ∧ evalE c (.and_ a b) env = evalE c (.and_ a b') env := by
+  simp [evalE, ha, hf]
+
+/-- `a || b` with `a` true: `b` is not evaluated -/
+theorem or_short_circuit (c : Caller) (a b b' : Expr) (env : Env) (va : Val)
+    (ha : evalE c a env = .ok va) (ht : isTrue va = true) :
+    evalE c (.or_ a b) env = .ok va ∧ evalE c (.or_ a b) env = evalE c (.or_ a b') env := by
+  simp [evalE, ha, ht]
+
+/-- `cond`: the value of an entry whose condition is false is not evaluated -/
+theorem cond_skips_false (c : Caller) (n n' : String) (k x x' rest : Expr) (env : Env) (vk : Val)
+    (hu : isUnderscore k = false) (hk : evalE c k env = .ok vk) (hf : isTrue vk = false) :
+    evalE c (.cond (.cons n k x rest)) env = evalE c (.cond rest) env ∧
+    evalE c (.cond (.cons n k x rest)) env = evalE c (.cond (.cons n' k x' rest)) env := by
+  simp [evalE, evalCond, hu, hk, hf]
+
+/-- `cond`: after the selected entry nothing is evaluated -/
+theorem cond_stops_at_true (c : Caller) (n n' : String) (k x rest rest' : Expr) (env : Env) (vk : Val)
+    (hu : isUnderscore k = false) (hk : evalE c k env = .ok vk) (ht : isTrue vk = true) :
+    evalE c (.cond (.cons n k x rest)) env = evalE c x env ∧
+    evalE c (.cond (.cons n k x rest)) env = evalE c (.cond (.cons n' k x rest')) env := by
+  simp [evalE, evalCond, hu, hk, ht]
+
+/-- the same at any position of a program, for literal guards: the unselected branch (`b`, `x`, the entries
+after the selected one) may be replaced by anything, including a failing term -/
+theorem short_circuit {g : Ast} {v : V} (hg : leafLit g = some v) (b b' x r r' : Ast) (n m : Nat) :
+    (Impl.isTrue (Val.data v) = false → SameResult (Spec.run n (.and_ g b)) (Spec.run m (.and_ g b'))) ∧
+    (Impl.isTrue (Val.data v) = true → SameResult (Spec.run n (.or_ g b)) (Spec.run m (.or_ g b'))) ∧
+    (Impl.isTrue (Val.data v) = false → SameResult (Spec.run n (.cond (.cons "" g b r))) (Spec.run m (.cond (.cons "" g b' r)))) ∧
+    (Impl.isTrue (Val.data v) = true → SameResult (Spec.run n (.cond (.cons "" g x r))) (Spec.run m (.cond (.cons "" g x r')))) :=
+  ⟨fun h => rewrite_inert (AR.andDead b b' hg h) n m,
+   fun h => rewrite_inert (AR.orDead b b' hg h) n m,
+   fun h => rewrite_inert (AR.cond (AR.condDead "" "" b b' hg h (AR.refl r).2.2.1)) n m,
+   fun h => rewrite_inert (AR.cond (AR.condTaken "" "" r r' hg h (rewrite_refl x))) n m⟩
+
+/-! ### lexical scope -/
+
+/-- a closure sees the bindings at its creation: re-binding a captured name before the call is invisible.
+`let x = u; let f = \y b; let x = w; f(d)`  =  `let x = u; let f = \y b; f(d)` (exactly, for every budget) -/
+theorem lexical_scope (fo po : Bool) (x f y : String) (u w d : Ast) (vu vw vd : V) (b : Ast)
+    (hu : leafLit u = some vu) (hw : leafLit w = some vw) (hd : leafLit d = some vd)
+    (hfx : f ≠ x) (hx : x ≠ "_") (hf : f ≠ "_") (n : Nat) (env : Env) :
+    eval n (compileG fo po (.let_ (.ident x) u (.let_ (.ident f) (.fn (.ident y) b)
+      (.let_ (.ident x) w (.call (.ident f) d))))) env =
+    eval n (compileG fo po (.let_ (.ident x) u (.let_ (.ident f) (.fn (.ident y) b) (.call (.ident f) d)))) env := by
+  simp [eval, compileG, compile_leaf hu, compile_leaf hw, compile_leaf hd, evalE, Impl.bind, lookup, hfx, hx, hf]
+
+/-- the documented instance: `let x = 1; let f = \y x + y; let x = 10; f(1)` is `2` -/
+theorem lexical_scope_example :
+    Impl.run 1 (.let_ (.ident "x") (.num 1) (.let_ (.ident "f")
+      (.fn (.ident "y") (.bin .add (.ident "x") (.ident "y")))
+      (.let_ (.ident "x") (.num 10) (.call (.ident "f") (.num 1))))) = .ok (.data (.num 2)) := rfl
+
+/-! ### layer 2: the precedence tower is the documented one -/
+
+/-- the `>`-separated alternatives of rule `expr` regenerated from syntax/arrai.wbnf are the documented
+precedence levels (the printers `Ast.toSource`/`toSourceFull` take their level numbers from this table) -/
 theorem precLevels_regenerated : Arrai.Facts.Generated.precLevels = Expected.precLevels := by decide
+
+/-- the level numbers the printers use -/
+theorem precLevels_numbers :
+    Expected.lvArrow = 0 ∧ Expected.lvOr = 4 ∧ Expected.lvAnd = 5 ∧ Expected.lvCompare = 7 ∧ Expected.lvAdd = 9 ∧
+    Expected.lvMul = 11 ∧ Expected.lvPow = 12 ∧ Expected.lvUnary = 13 ∧ Expected.lvTail = 15 ∧ Expected.lvAtom = 16 := by
+  decide
 
 end Arrai.C08.Theorems
